@@ -6,6 +6,7 @@ CONSTANTS Callers = {c1, c2}
  FreshKey = FALSE
  MaxJunk = 0
  MaxClose = 0
+ MaxBad = 0
  Kinds = {"obj"}
  Dev = {}
 INVARIANTS WireIdsIncrease SeqNoRules OwnResult TypedVector LoopAlive AcceptedNeverResent SaltPersisted NoStallNotify NoStallDeliver AckedAll
